@@ -311,6 +311,12 @@ def check(ctx):
 from ..selftest import V  # noqa: E402
 
 VARIANTS = [
+    V('existence-table-read-through-row-filter', 'optimization/graph_processor.py',
+      [("            i_is_active = np.where(dv_node_existence[:, i_dv])[0]", "            i_is_active = np.where(dv_node_existence[x_keep, i_dv])[0]")],
+      key='existence-table-read-with-all-rows'),
+    V('twin-existence-column-hoisted', 'optimization/graph_processor.py',
+      [("            i_is_active = np.where(dv_node_existence[:, i_dv])[0]", "            exists_in_comb = dv_node_existence[:, i_dv]\n            i_is_active = np.where(exists_in_comb)[0]")],
+      expect='silent'),
     V('imputes-into-integer-table', 'optimization/graph_processor.py',
       [("        x = x.astype(float)\n        for i_dv, dv in enumerate(self.all_des_vars):\n            inactive_value = self._get_inactive_value(dv)\n            x[x[:, i_dv] == X_INACTIVE_VALUE, i_dv] = inactive_value\n",
         "        for i_dv, dv in enumerate(self.all_des_vars):\n            inactive_value = self._get_inactive_value(dv)\n            x[x[:, i_dv] == X_INACTIVE_VALUE, i_dv] = inactive_value\n        x = x.astype(float)\n")],
